@@ -249,6 +249,9 @@ func relationalC04(t *testing.T, r *vkit.Run, sc *Script, res caseResult) (strin
 	}
 	r.Label("relational-projection")
 	pres := runCase(t, proj, false)
+	if res.x.Aborted || (pres.x != nil && pres.x.Aborted) {
+		return "", "" // one of the two runs ended inside a tolerance band
+	}
 	if pres.x == nil || len(pres.x.Findings) > 0 {
 		return "", "" // the projected history has its own finding: judged when it is generated directly
 	}
